@@ -98,6 +98,7 @@ OPNAMES = list(OPS)
 KINDS = ['PullInstancesWithPath', 'PullInstancePaths', 'PullInstances']
 KIND_REPRESENTATIVES = ['OpenEnumerateInstances', 'OpenAssociatorInstancePaths', 'OpenQueryInstances']
 BOGUS = ['no-such-context', '']
+SAMPLE_PLAN = ['OpenEnumerateInstances', 'OpenAssociatorInstancePaths']
 QUERY = 'SELECT * FROM TST_A'
 QLANG = 'DMTF:FQL'
 
@@ -460,7 +461,11 @@ def _step(w, ev):
             s.status = 'eos'
         else:
             s.ctx = tuple(r.context)
-        return StepResult('open:eos' if r.eos else 'open:more-to-come', True, problems, obs)
+        # (eos=False although everything was delivered is allowed by the statement; it is only
+        # made visible as an outcome class of its own)
+        out = 'open:eos' if r.eos else 'open:more-to-come' if s.remaining() \
+            else 'open:all-delivered-eos-pending'
+        return StepResult(out, True, problems, obs)
 
     if what in ('pull', 'xpull'):
         if what == 'pull':
@@ -545,7 +550,8 @@ def _step(w, ev):
             s.status = 'eos'
         else:
             s.ctx = tuple(r.context)
-        out = 'pull:eos' if r.eos else 'pull:keep-alive(0)' if moc == 0 else 'pull:more-to-come'
+        out = 'pull:eos' if r.eos else 'pull:all-delivered-eos-pending' if not rest \
+            else 'pull:keep-alive(0)' if moc == 0 else 'pull:more-to-come'
         return StepResult(out if not problems else 'pull:VIOLATION', True, problems, obs)
 
     if what in ('close', 'xclose'):
@@ -641,10 +647,15 @@ def run_shard(shard, tier):
     for n, plan_, depth in shard['runs']:
         w = fresh(n, plan_)
 
-        def on_transition(parent_key, depth, ev, r, child_key, n=n):
+        sampled = (n == 2 and plan_ == SAMPLE_PLAN)   # exactly one BFS run: samples do not depend
+                                                      # on shard order
+
+        def on_transition(parent_key, depth, ev, r, child_key, n=n, sampled=sampled):
             acc.case((n, parent_key, json.dumps(ev)), nontrivial=r.nontrivial, outcome=r.outcome,
-                     sample=dict(n=n, depth=depth + 1, event=ev, outcome=r.outcome)
-                     if depth == 3 and r.outcome.startswith('pull:') else None)
+                     sample=dict(n=n, sessions=[list(x[:3]) for x in parent_key[3]], event=ev,
+                                 outcome=r.outcome, after_events=depth)
+                     if sampled and depth == 4 and r.outcome in ('pull:eos', 'wrong-kind:refused',
+                                                                 'stale:refused') else None)
 
         res = explore.bfs(w, enabled, step, canon, max_depth=depth,
                           snap=explore.PickleSnap(), on_transition=on_transition)
